@@ -24,7 +24,7 @@ RULE = ('fates = exit codes 0..255 and terminating signals; the child is a puppe
         'return the exit code. non-trivial = fate other than exit 0; distinct by (transport, fate, path, repetitions)')
 ASSUMPTIONS = ['/proc/<pid>/stat field 52 of a zombie is its raw wait status',
                'wait() is only issued once /proc shows the child has exited (it would otherwise block by design)']
-REQUIRED = ['observations', 'proc_crosschecks', 'pty_cases', 'popen_cases', 'run_cases', 'signal_fates', 'exit_fates',
+REQUIRED = ['observations', 'preludes', 'proc_crosschecks', 'pty_cases', 'popen_cases', 'run_cases', 'signal_fates', 'exit_fates',
             'repeat_observations']
 
 SIGNALS = [1, 2, 3, 6, 9, 10, 12, 13, 14, 15, 24, 25, 26, 27, 29, 30, 31, 34, 40, 64, 4, 8, 11, 7, 5]
@@ -49,6 +49,14 @@ def plan(tier, seed):
     for f in fs:
         for p in PATHS:
             cases.append({'tr': 'pty', 'fate': f, 'path': p})
+        # histories in which something happened while the child was still alive
+        k = (f[1] * 7 + len(cases)) % 5
+        for j, (prelude, paths) in enumerate([('isalive', PATHS), ('read-timeout', PATHS),
+                                              ('closeNF', ['isalive', 'wait', 'close', 'terminate', 'close-noforce', 'terminate-force']),
+                                              ('terminate', PATHS)]):
+            for i, p in enumerate(paths):
+                if tier == 'thorough' or (i + j + k) % 3 == 0:
+                    cases.append({'tr': 'pty', 'fate': f, 'path': p, 'prelude': prelude})
         for p in ('wait', 'eof-wait'):
             cases.append({'tr': 'popen', 'fate': f, 'path': p})
         cases.append({'tr': 'run', 'fate': f, 'path': 'run', 'u': (f[1] % 2 == 0)})
@@ -74,8 +82,9 @@ def judge(c, fate, what, acc, case, check_status=True):
     acc.count('observations')
     ex, sg, st, term = snapshot(c)
     kind, val = fate
-    desc = '%s %s=%d via %s: after %s exitstatus=%r signalstatus=%r status=%r terminated=%r' % (
-        case['tr'], kind, val, case['path'], what, ex, sg, st, term)
+    desc = '%s %s=%d via %s%s: after %s exitstatus=%r signalstatus=%r status=%r terminated=%r' % (
+        case['tr'], kind, val, case['path'], (' (prelude: %s)' % case['prelude']) if case.get('prelude') else '',
+        what, ex, sg, st, term)
     bad = None
     if kind == 'exit':
         if ex != val or sg is not None:
@@ -95,14 +104,44 @@ def judge(c, fate, what, acc, case, check_status=True):
 
 def pty_case(case, acc, rng):
     fate, path = case['fate'], case['path']
-    pup = Puppet(opts=['ignhup'] if False else [])
+    prelude = case.get('prelude')
+    pup = Puppet(opts=['ignhup'] if prelude in ('closeNF', 'terminate') else [])
     c = None
     try:
         c = pexpect.spawn(pup.argv[0], pup.argv[1:], timeout=10)
         c.delayafterclose = c.delayafterterminate = 0.02
+        c.ptyproc.delayafterclose = c.ptyproc.delayafterterminate = 0.02
         pid = pup.wait_ready()
         if pid != c.pid:
             raise PeerError('pid mismatch')
+        # operations performed while the child is still alive (they must not spoil the later observation)
+        if prelude:
+            acc.count('preludes')
+            try:
+                if prelude == 'isalive':
+                    if not c.isalive():
+                        acc.violation('running-child-reported-dead', 'isalive() False before the child died', case)
+                        return
+                elif prelude == 'closeNF':
+                    try:
+                        c.close(force=False)
+                        raise PeerError('close(force=False) terminated a child that ignores HUP/INT')
+                    except pexpect.ExceptionPexpect:
+                        pass
+                elif prelude == 'terminate':
+                    if c.terminate(force=False):
+                        raise PeerError('terminate() killed a child that ignores HUP/INT')
+                elif prelude == 'read-timeout':
+                    try:
+                        c.read_nonblocking(10, 0.05)
+                    except pexpect.TIMEOUT:
+                        pass
+            except PeerError:
+                raise
+            if c.terminated or c.exitstatus is not None or c.signalstatus is not None:
+                acc.violation('status-set-while-running', 'after %s on a living child: terminated=%r exitstatus=%r signalstatus=%r' % (
+                    prelude, c.terminated, c.exitstatus, c.signalstatus), case)
+                return
         if fate[0] == 'exit':
             st = pup.exit(fate[1])
         else:
